@@ -343,7 +343,7 @@ impl OptSet {
     fn tag(&self) -> String { format!("sg{}fit{}{}fb{}", self.sg as u8, self.fit as u8, if self.cstr { "cstr" } else { "" }, self.fb as u8) }
 }
 
-const REGION_IDS: [(char, &str); 5] = [('u', "macro_unsigned_wrap"), ('c', "macro_char_sign"), ('r', "macro_redefinition"), ('f', "macro_float_suffix"), ('w', "macro_wide_string")];
+const REGION_IDS: [(char, &str); 6] = [('u', "macro_unsigned_wrap"), ('c', "macro_char_sign"), ('r', "macro_redefinition"), ('f', "macro_float_suffix"), ('w', "macro_wide_string"), ('p', "macro_open_reference")];
 
 /// the definition together with everything it (transitively) references — a small reproducer
 fn slice_header(defs: &[(String, E)], name: &str) -> String {
@@ -391,8 +391,10 @@ fn macro_header_case(scratch: &Scratch, case: &str, defs: &[(String, E)], optset
     let mut last_item: HashMap<&str, &MItem> = HashMap::new();
     for m in &base { last_item.insert(m.name.as_str(), m); }
     for n in &first_names {
-        rep.inc("c_model_vs_clang_compared");
         let m = last_item[n.as_str()];
+        // a name that references an OPEN name has no value in the C model by design (textual re-association)
+        if !cval_is_value(&m.cval) && m.flags.contains('p') { rep.inc("c_model_no_value_open_reference"); continue; }
+        rep.inc("c_model_vs_clang_compared");
         match cvals.get(n) {
             Some(c) if cmodel_agrees(&m.cval, c) => {}
             other => push_cap(&mut rep.cmodel_failures, J::obj(vec![("header", J::s(slice_header(defs, n))), ("name", J::s(n)), ("lean_cEval", J::s(&m.cval)), ("clang", J::s(other.map(cv_text).unwrap_or("missing".into())))])),
@@ -989,6 +991,12 @@ fn corpus_defs() -> Vec<(String, E)> {
         ("BIGCAST".into(), p(E::Cast(CTy::ULLong, Box::new(E::Un("-", Box::new(lit("1", true, 1, Suf::None))))))),
         ("OKHEX".into(), lit("0x7fffffff", false, 0x7fffffff, Suf::None)),
         ("NEG".into(), p(E::Un("-", Box::new(lit("5", true, 5, Suf::None))))),
+        // open bodies: textual expansion re-associates (`A*3` is `1+2*3`)
+        ("OPA".into(), E::Bin("+", Box::new(lit("1", true, 1, Suf::None)), Box::new(lit("2", true, 2, Suf::None)))),
+        ("OPB".into(), p(E::Bin("*", Box::new(E::Ident("OPA".into())), Box::new(lit("3", true, 3, Suf::None))))),
+        ("OPFLAGS".into(), E::Bin("|", Box::new(lit("4", true, 4, Suf::None)), Box::new(lit("1", true, 1, Suf::None)))),
+        ("OPX".into(), p(E::Bin("&", Box::new(E::Ident("OPFLAGS".into())), Box::new(lit("3", true, 3, Suf::None))))),
+        ("OPALIAS".into(), E::Ident("OPA".into())),
     ]
 }
 
